@@ -2205,6 +2205,15 @@ class sptensor:
             if len(idx.shape) != 1:
                 assert False, "Expecting a row index"
 
+            # (a scalar index was already counted from the end above: what is
+            # still negative, or beyond the last element, does not exist)
+            numel = prod(self.shape)
+            low = 0 if isinstance(item, int) else -numel
+            if idx.size > 0 and (np.min(idx) < low or np.max(idx) >= numel):
+                raise IndexError(
+                    f"Linear index out of range for sptensor with {numel} elements"
+                )
+
             # extract linear indices and convert to subscripts
             srchsubs = tt_ind2sub(self.shape, idx)
 
